@@ -67,6 +67,24 @@ Definition chk_topk (logits : list Z) (k : Z) (out : list btok) : bool :=
                        | Some b => (0 <=? fst o) && (b =? snd o) | None => false end) out
   && distinct (map fst out).
 
+(** the direct, executable form of "a legal topK result" (Proofs.legal_topk; CorrProofs.legal_topkb_sound): right
+    length, descending, every token an input token (same id, same bits), ids distinct, and no input token that was left
+    out is larger than a token that was kept *)
+Fixpoint sorted_descb (l : list tok) : bool :=
+  match l with
+  | a :: (b :: _) as r => negb (flt (tv a) (tv b)) && sorted_descb r
+  | _ => true
+  end.
+Definition mem_id (i : Z) (l : list tok) : bool := existsb (fun t => tid t =? i) l.
+Definition legal_topkb (ts : list tok) (k : Z) (out : list tok) : bool :=
+  Nat.eqb (length out) (eff_k (length ts) k)
+  && sorted_descb out
+  && forallb (fun o => existsb (tok_same o) ts) out
+  && distinct (map tid out)
+  && forallb (fun t => mem_id (tid t) out || forallb (fun o => negb (flt (tv o) (tv t))) out) ts.
+Definition chk_topk_legal (logits : list Z) (k : Z) (out : list btok) : bool :=
+  legal_topkb (enumerate 0 (map fb logits)) k (decs out).
+
 Definition chk_temperature (inp : list btok) (t : Z) (out : list btok) : bool :=
   toks_same (temperature (decs inp) (fb t)) (decs out).
 
@@ -139,7 +157,7 @@ Definition chk_case (has_nan staged : bool) (lg : list Z) (t k p mp t' k' p' mp'
   let mn := firstn (Z.to_nat nmp) sm in
   [ chk_bits lg; chk_params t k p mp t' k' p' mp' ; match lg with [] => true | _ => chk_greedy lg gid end ]
   ++ (if staged then
-        [ has_nan || chk_topk lg k' tk; chk_temperature tk t' sc; chk_softmax tab sc sm;
+        [ has_nan || (chk_topk lg k' tk && chk_topk_legal lg k' tk); chk_temperature tk t' sc; chk_softmax tab sc sm;
           chk_topp sm p' tp; chk_minp tp mp' mn ]
       else [])
   ++ flat_map (fun d => let '(r, id, e) := d in
